@@ -44,7 +44,7 @@ func NewVC(g *Global, fn *ssa.Function, c *Contract) *VC {
 	}
 	return &VC{G: g, fn: fn, key: key, contract: c, declared: map[string]bool{}, compSort: map[string]string{},
 		vals: map[ssa.Value]Val{}, params: map[string]Val{}, compMeta: map[string]compMetaT{}, ordinals: map[string]int{}, assumptions: map[string]bool{},
-		trustedUsed: map[string]bool{}, opaqueCalls: map[string]bool{}, strLits: map[string]Term{}}
+		trustedUsed: map[string]bool{}, opaqueCalls: map[string]bool{}, strLits: map[string]Term{}, anchorsHit: map[int]bool{}}
 }
 
 func (vc *VC) pkg() *types.Package {
@@ -151,7 +151,15 @@ func (vc *VC) run() {
 		region[b] = true
 	}
 	vc.computeLoops()
+	vc.callOrdinals()
 	vc.processRegion(region, fn.Blocks[0], st, nil)
+	if c != nil {
+		for i, ac := range c.Asserts {
+			if !vc.anchorsHit[i] {
+				vc.unsupportedf("anchor %q matches no call site", ac.Anchor)
+			}
+		}
+	}
 }
 
 // ---------- CFG ----------
@@ -523,6 +531,11 @@ func (vc *VC) loopEnv(li *loopInfo, st *State, phis map[*ssa.Phi]Val) *Env {
 
 // localByName resolves a source-level local variable to the SSA value that holds it at block `at`.
 func (vc *VC) localByName(name string, at *ssa.BasicBlock, st *State) (Val, bool) {
+	return vc.localByNameAt(name, at, 0, st)
+}
+
+// localByNameAt also considers definitions in block `at` before instruction index `before`.
+func (vc *VC) localByNameAt(name string, at *ssa.BasicBlock, before int, st *State) (Val, bool) {
 	var best ssa.Value
 	var bestAddr bool
 	var bestBlock *ssa.BasicBlock
@@ -538,10 +551,10 @@ func (vc *VC) localByName(name string, at *ssa.BasicBlock, st *State) (Val, bool
 			if o := dr.Object(); o == nil || o.Name() != name {
 				continue
 			}
-			if !(b.Dominates(at)) || b == at {
-				if b != at {
-					continue
-				}
+			if !(b.Dominates(at)) {
+				continue
+			}
+			if b == at && i >= before {
 				continue
 			}
 			if _, known := vc.vals[dr.X]; !known {
